@@ -531,15 +531,16 @@ func (db *RockDB) ZIncrBy(ts int64, key []byte, delta float64, member []byte) (f
 
 	score = oldScore + delta
 
-	sk := zEncodeScoreKey(false, false, table, rk, member, score)
-	wb.Put(sk, []byte{})
-	wb.Put(ek, PutFloat64(score))
-
 	if v != nil {
-		// so as to update score, we must delete the old one
+		// so as to update score, we must delete the old one.
+		// It must be deleted before the new one is put: if the score did not change both are the same key.
 		oldSk := zEncodeScoreKey(false, false, table, rk, member, oldScore)
 		wb.Delete(oldSk)
 	}
+
+	sk := zEncodeScoreKey(false, false, table, rk, member, score)
+	wb.Put(sk, []byte{})
+	wb.Put(ek, PutFloat64(score))
 
 	err = db.rockEng.Write(wb)
 	return score, err
